@@ -314,12 +314,16 @@ def run(ctx):
     for m in range(2, 60):
         sys.modules.pop(c11.modname(m), None)
     callstats = run_call_mode(ctx)
+    callstats.update(run_preemption_mode(ctx))
     ctx.coverage.update({
         "evaluations": total + callstats["call_mode_cases"], "traces_validated_against_impl": total,
         "rule": "programs of 2-3 threads x <= 4 registry operations; schedules = random thread choices at every source line of "
                 "frontend/backend.py (bursty and uniform); part B: 2-3 threads x 1-2 whole einx calls (fresh descriptions: tracing, "
                 "compilation and cache fill happen concurrently), one thread runs at a time and hands over after a chosen number of "
-                "function calls inside einx's source, every result compared with the same call executed alone in a private process; "
+"function calls inside einx's source, every result compared with the same call executed alone in a private process; part C: "
+                "exhaustive single pre-emption - a cached call stopped before EVERY source line of api.py / backend.py while another thread "
+                "enters and leaves a with-block (and vice versa), and two first-time calls with several anonymous axes stopped at evenly "
+                "spaced lines of the parser and before EVERY line of every einx function that assigns a module-level variable; "
                 "distinct_nontrivial = distinct (programs, executed schedule)",
         "input_distribution": {**callstats, "cases": ncases, "schedules_per_case": nsched, "runs_with_a_failing_operation": fails,
                                "failures_explained_by_a_serial_order": explained},
@@ -480,9 +484,260 @@ def run_call_mode(ctx):
     return {"call_mode_cases": len(cases), "call_mode_context_switches": switches, "call_mode_distinct_calls": len(keys)}
 
 
+# ---------------------------------------------------------------------------------------------
+# part C: exhaustive single pre-emption (one thread is stopped before a chosen source line, the other runs to the end)
+# ---------------------------------------------------------------------------------------------
+_HOT = {}
+
+
+def hot_codes():
+    """code objects of einx functions that assign module-level variables (STORE_GLOBAL): state shared by all threads"""
+    if "set" not in _HOT:
+        import dis
+        import glob as _glob
+        found = set()
+        for path in _glob.glob(common.REPO.rstrip("/") + "/einx/**/*.py", recursive=True):
+            try:
+                top = compile(open(path).read(), path, "exec")
+            except (SyntaxError, OSError):
+                continue
+            todo = [top]
+            while todo:
+                co = todo.pop()
+                todo.extend(c for c in co.co_consts if hasattr(c, "co_code"))
+                if co is not top and any(i.opname in ("STORE_GLOBAL", "DELETE_GLOBAL") for i in dis.get_instructions(co)):
+                    found.add((co.co_filename, co.co_name, co.co_firstlineno))
+        _HOT["set"] = found
+    return _HOT["set"]
+
+
+def single_preemption(body_a, body_b, pause_index, suffixes, hot_only=False, pause_a=None):
+    """thread B runs body_b; before its pause_index-th source line inside the files named by [suffixes] it stops, thread A runs
+    body_a to the end, B continues.  -> (result A, result B, number of such lines B executed)"""
+    import einx._src.frontend.backend as B
+    src = common.REPO.rstrip("/") + "/einx/"
+    paused, a_done, b_finished = threading.Event(), threading.Event(), threading.Event()
+    res = {}
+    count = [0]
+
+    def lock_owned():
+        try:
+            return B.registry.use_lock._is_owned()
+        except Exception:  # noqa: BLE001
+            return False
+
+    def wrap(f):
+        try:
+            return f()
+        except BaseException as e:  # noqa: BLE001
+            return ("exc", common.classify_exc(e), common.exc_site(e), str(e)[:300])
+
+    def local(frame, event, arg):
+        if event == "line":
+            count[0] += 1
+            if count[0] == pause_index and not lock_owned():
+                paused.set()
+                a_done.wait(60.0)
+        return local
+
+    hot = hot_codes() if hot_only else None
+
+    def glob(frame, event, arg):
+        co = frame.f_code
+        fn = co.co_filename
+        if event == "call" and fn.startswith(src):
+            if hot is not None:
+                return local if (fn, co.co_name, co.co_firstlineno) in hot else None
+            if fn.endswith(suffixes):
+                return local
+        return None
+
+    def run_b():
+        sys.settrace(glob)
+        try:
+            res["b"] = wrap(body_b)
+        finally:
+            sys.settrace(None)
+            paused.set()
+            b_finished.set()
+
+    count_a = [0]
+
+    def local_a(frame, event, arg):
+        if event == "line":
+            count_a[0] += 1
+            if count_a[0] == pause_a and not lock_owned():
+                a_done.set()                 # B goes on to its end while A waits here
+                b_finished.wait(60.0)
+        return local_a
+
+    def glob_a(frame, event, arg):
+        co = frame.f_code
+        if event == "call" and co.co_filename.startswith(src) and (co.co_filename, co.co_name, co.co_firstlineno) in hot:
+            return local_a
+        return None
+
+    def run_a():
+        paused.wait(120.0)
+        if pause_a is not None and hot is not None:
+            sys.settrace(glob_a)
+        try:
+            res["a"] = wrap(body_a)
+        finally:
+            sys.settrace(None)
+            a_done.set()
+
+    tb, ta = threading.Thread(target=run_b, daemon=True), threading.Thread(target=run_a, daemon=True)
+    tb.start()
+    ta.start()
+    tb.join(180.0)
+    ta.join(180.0)
+    return res.get("a", ("exc", "STUCK", "", "")), res.get("b", ("exc", "STUCK", "", "")), count[0]
+
+
+def _preempt_case(item):
+    kind, k, pause = item
+    import einx
+    import einx._src.frontend.backend as B
+    out = []
+
+    def call(fn, desc, x, **kw):
+        r = getattr(einx, fn)(desc, x, **kw)
+        return ("ok", np.asarray(r))
+
+    if kind in ("exit_during_call", "enter_during_call"):
+        # a with-block is already open (or is opened) while the call of another thread is under way
+        x = np.arange(12, dtype=np.float64).reshape(3, 4) + k
+        einx.sum("a [b]", x)
+        einx.sum("a [b]", x, backend="numpy.einsum")
+        be = einx.backend.get("numpy.einsum")
+        files = ("frontend/api.py", "frontend/backend.py")
+        if kind == "exit_during_call":
+            be.__enter__()
+
+            def other():
+                be.__exit__(None, None, None)
+                return ("ok", None)
+        else:
+            def other():
+                be.__enter__()
+                return ("ok", None)
+        ra, rb, n = single_preemption(other, lambda: call("sum", "a [b]", x), pause, files)
+        if kind == "enter_during_call":
+            try:
+                be.__exit__(None, None, None)
+            except BaseException as e:  # noqa: BLE001
+                ra = ("exc", common.classify_exc(e), common.exc_site(e), str(e)[:300])
+        exp = x.sum(axis=1)
+        if rb[0] != "ok" or not np.allclose(rb[1], exp):
+            out.append(({"kind": "call_fails_next_to_a_with_block", "exc": rb[1] if rb[0] == "exc" else "wrong value", "schedule": kind},
+                        {"pause_before_line_event": pause, "files": list(files), "call": "einx.sum('a [b]', x)",
+                         "other_thread": "leaves" if kind == "exit_during_call" else "enters" + " a with-block of numpy.einsum", "detail": str(rb)[:400]}))
+        if ra[0] != "ok":
+            out.append(({"kind": "with_block_fails_next_to_a_call", "exc": ra[1], "schedule": kind},
+                        {"pause_before_line_event": pause, "files": list(files), "detail": str(ra)[:400]}))
+        if len(B.registry.state.use_stack) != 0:
+            out.append(({"kind": "with_stack_not_restored"}, {"pause_before_line_event": pause, "schedule": kind}))
+            B.registry.state.use_stack.clear()
+        return n, out
+    if kind in ("with_vs_call", "call_vs_with"):
+        x = np.arange(12, dtype=np.float64).reshape(3, 4) + k
+        einx.sum("a [b]", x)                                  # the call below is served from the cache
+        einx.sum("a [b]", x, backend="numpy.einsum")
+
+        def with_block():
+            with einx.backend.get("numpy.einsum"):
+                pass
+            return ("ok", None)
+
+        def the_call():
+            return call("sum", "a [b]", x)
+        files = ("frontend/api.py", "frontend/backend.py")
+        if kind == "with_vs_call":       # the call is stopped, the with-block runs in between
+            ra, rb, n = single_preemption(with_block, the_call, pause, files)
+            rcall, rwith = rb, ra
+        else:                            # the with-block is stopped, the call runs in between
+            ra, rb, n = single_preemption(the_call, with_block, pause, files)
+            rcall, rwith = ra, rb
+        exp = x.sum(axis=1)
+        if rcall[0] != "ok" or not np.allclose(rcall[1], exp):
+            out.append(({"kind": "call_fails_next_to_a_with_block", "exc": rcall[1] if rcall[0] == "exc" else "wrong value", "schedule": kind},
+                        {"pause_before_line_event": pause, "files": list(files), "call": "einx.sum('a [b]', x)", "other_thread": "with einx.backend.get('numpy.einsum'): pass",
+                         "detail": str(rcall)[:400]}))
+        if rwith[0] != "ok":
+            out.append(({"kind": "with_block_fails_next_to_a_call", "exc": rwith[1], "schedule": kind},
+                        {"pause_before_line_event": pause, "files": list(files), "detail": str(rwith)[:400]}))
+        if len(B.registry.state.use_stack) != 0:
+            out.append(({"kind": "with_stack_not_restored"}, {"pause_before_line_event": pause, "schedule": kind}))
+            B.registry.state.use_stack.clear()
+        return n, out
+    # two first-time calls whose descriptions contain several anonymous axes, stopped inside the parser
+    n1, n2 = 2 + k, 20000 + k                                  # fresh shapes (k is unique per schedule): both calls are traced anew
+    x, y = np.arange(n1, dtype=np.int64), np.arange(n2, dtype=np.int64)
+
+    def call1():
+        return call("id", "a -> a 1 1 1", x)
+
+    def call2():
+        return call("id", "b -> 1 b 1 1", y)
+    pa = None
+    if kind == "calls_at_global_writes" and isinstance(pause, (list, tuple)):
+        pause, pa = pause                                       # both threads are stopped once
+    ra, rb, n = single_preemption(call2, call1, pause, ("namedtensor/stage1/parse.py", "namedtensor/stage1/tree.py"),
+                                  hot_only=(kind == "calls_at_global_writes"), pause_a=pa)
+    for r, exp, d in ((rb, x.reshape(n1, 1, 1, 1), "a -> a 1 1 1"), (ra, y.reshape(1, n2, 1, 1), "b -> 1 b 1 1")):
+        if r[0] != "ok" or r[1].shape != exp.shape or not np.array_equal(r[1], exp):
+            out.append(({"kind": "first_time_call_fails_next_to_another", "exc": r[1] if r[0] == "exc" else "wrong value"},
+                        {"pause_before_line_event": pause, "files": ["stage1/parse.py", "stage1/tree.py"], "call": f"einx.id('{d}', arange(n))", "detail": str(r)[:400]}))
+    return n, out
+
+
+def run_preemption_mode(ctx):
+    quick = ctx.tier == "quick"
+    stats = {}
+    # how many line events does each stopped thread execute?  (one probe run each, pause never reached)
+    probes = {}
+    for j, kind in enumerate(("with_vs_call", "call_vs_with", "exit_during_call", "enter_during_call", "calls_at_global_writes", "parse_vs_parse")):
+        n, _ = _preempt_case((kind, 10000 + j, 10 ** 9))
+        probes[kind] = n
+    items = []
+    k = 1
+    for kind, total in probes.items():
+        if kind == "calls_at_global_writes":
+            pts = [(i, j) for i in range(1, total + 1) for j in range(1, total + 1)][: (400 if quick else 5000)]   # every pair of stops
+        elif kind == "parse_vs_parse":
+            step = max(1, total // (150 if quick else 4000))
+            pts = list(range(1 + ctx.rng.randrange(step), total + 1, step))
+        else:
+            pts = list(range(1, total + 1))                    # exhaustive
+        for p in pts:
+            items.append((kind, k, p))
+            k += 1
+        stats["preemption_points_" + kind] = len(pts)
+        stats["line_events_" + kind] = total
+    res = common.pmap(_preempt_case, items, procs=4)
+    for it, (n, viol) in zip(items, res):
+        for tags, payload in viol:
+            ctx.report(tags, {**payload, "case": list(it)})
+        ctx.distinct.add("preempt|%s|%s" % (it[0], it[2]))
+    stats["preemption_schedules"] = len(items)
+    return stats
+
+
 def replay(ctx, path):
     data = json.load(open(path))
     case, sched = data.get("case"), data.get("schedule")
+    if case is None and "case" in data and isinstance(data["case"], list) and len(data["case"]) == 3:
+        import einx  # noqa: F401
+        n, viol = _preempt_case(tuple(data["case"]))
+        print("single pre-emption", data["case"], "line events:", n)
+        for tags, payload in viol:
+            print(tags, str(payload.get("detail", ""))[:300])
+        if viol:
+            print(f"VIOLATION property=C10 replay={path}")
+            return 1
+        print("both threads returned what they return alone")
+        return 0
     if case is None and "programs" in data and "points" in data:
         import multiprocessing as mp
         import einx  # noqa: F401
